@@ -16,7 +16,7 @@ from mc.props import c01
 ID = 'C03'
 LEVEL = 'exploration'
 RULE = ('programs = C01 menus (core, jumps, try, clos, expr, state, callee) up to the size bound, each program with a loop '
-        'also in a variant whose loops start with set_loop_options(maximum_iterations=<loop id>); executions = all tapes; '
+        'also in a variant whose loops start with set_loop_options(<maximum_iterations | parallel_iterations, alternating>=<loop id>); executions = all tapes; '
         'every dynamic operator invocation is checked (name/getter/setter length and positions, getter purity, set(get) '
         'identity, write-then-read round trip, callback arities, nouts range, input-only entries restored after if_stmt '
         '("outputs first"), opts = iterate_names + exactly the directives of that loop, lazy and_/or_/if_exp); '
@@ -32,10 +32,10 @@ ASSUMPTIONS = ['an Undefined entry is the unbound state: identity and round-trip
 PLAN = {
     'quick': [('core', 3, (('x', 'y'),), (('x',), ('x', 'y'))), ('jumps', 4, (('x',),), (('x',),)), ('try', 3, (('x',),), (('x',),)),
               ('clos', 3, (('x',),), (('x',),)), ('expr', 3, (('x',),), (('x',),)), ('state', 3, (('x', 'y'),), (('x', 'y'), ())),
-              ('callee', 2, (('x',),), (('x',),)), ('compidx', 3, ((),), ((),)), ('alias', 3, (('x',),), ((),)), ('targets', 3, (('x', 'y'),), ((),))],
+              ('callee', 2, (('x',),), (('x',),)), ('compidx', 4, ((),), ((),)), ('trybind', 3, ((),), ((),)), ('alias', 3, (('x',),), ((),)), ('targets', 3, (('x', 'y'),), ((),))],
     'thorough': [('core', 4, (('x', 'y'),), (('x',), ('x', 'y'))), ('jumps', 5, (('x',),), (('x',),)), ('try', 4, (('x',),), (('x',),)),
                  ('clos', 4, (('x',),), (('x',),)), ('expr', 4, (('x',),), (('x',),)), ('state', 4, (('x', 'y'),), (('x', 'y'), ())),
-                 ('callee', 3, (('x',),), (('x',),)), ('compidx', 4, ((),), ((),)), ('alias', 4, (('x',),), ((),)),
+                 ('callee', 3, (('x',),), (('x',),)), ('compidx', 5, ((),), ((),)), ('trybind', 4, ((),), ((),)), ('alias', 4, (('x',),), ((),)),
                  ('targets', 4, (('x', 'y'),), ((),))],
 }
 CAP = c01.CAP
@@ -166,6 +166,32 @@ def reduce_witness(item, kind):
   return body, pro, epi, best
 
 
+def _contains(st, kinds):
+  return c01._has_kind_deep((st,), kinds)
+
+
+def composite_base_maybe_unbound(body, seen_bind=False):
+  """Known class (known_findings.json): a composite state entry d[p.key] whose base p is bound on SOME path before the
+  statement (so the entry is legitimate state) but unbound on the path taken: get_state() yields Undefined for it and
+  set_state() of that value stores through the Undefined placeholder of p.  Recognised on the reduced witness: the
+  statement using d[p.key] does not bind p itself and a statement before it does."""
+  for st in body:
+    if st[0] in ('SUBPA', 'SUBPI'):
+      continue
+    blocks = [p for p in st[1:] if isinstance(p, tuple) and p and isinstance(p[0], tuple)]
+    if blocks and _contains(st, ('SUBPA', 'SUBPI')):
+      if not _contains(st, ('BINDP',)):
+        if seen_bind:
+          return True
+      else:
+        for b in blocks:
+          if composite_base_maybe_unbound(b, seen_bind):
+            return True
+    if _contains(st, ('BINDP',)):
+      seen_bind = True
+  return False
+
+
 def check(item):
   tier = _S['tier']
   name, body, pro, epi, idx, dirs = item
@@ -174,6 +200,9 @@ def check(item):
   out = []
   seen = set()
   lam_limit = 0
+  known_here = False
+  # (the identity kinds first: a failed restore of the monitor's own round trip is a consequence of the same junk key)
+  viol = sorted(viol, key=lambda v: (not v[0].startswith(('set-state-identity', 'set-state-raises-unbound')), v[0]))
   for kind, msg, tp in viol:
     if kind in seen:
       continue
@@ -188,6 +217,10 @@ def check(item):
       continue
     rsrc = item_source((name, rb, rp, re_, -1000, dirs))
     sig = '%s|%s|%s|pro=%s|epi=%s|dir=%d|%s' % (kind, name, ps.skeleton(rb), ''.join(rp), ''.join(re_), dirs, rv[1] if rv else 'unreduced')
+    if rv is not None and (kind in ('set-state-identity-base-in-state', 'set-state-raises-unbound-base') or (kind == 'set-state-identity' and composite_base_maybe_unbound(rb))
+                           or (kind == 'state-restore' and known_here)):
+      sig = 'set-state-identity|composite-entry-whose-base-variable-is-unbound-on-the-path-taken'
+      known_here = True
     out.append(util.V(sig, '%s on tape %s: %s\nreduced witness:\n%s' % (kind, list(tp), msg, rsrc), item, source=src, tape=list(tp)))
   return {'viol': out,
           'n': {'evaluations': ninv, 'programs': 1, 'executions': nexec, 'operator_invocations_checked': ninv,
